@@ -108,6 +108,14 @@ fn get_fn_info_from_state(
     }
 }
 
+/// Returns the amount of function invocations which are currently running.
+pub(crate) fn get_call_stack_depth(state: &mut HashMap<String, StateValue>) -> usize {
+    let fn_state = get_core_sub_state_for_command(state, FUNCTION_STATE_KEY.to_string());
+    let call_stack = get_list(CALL_STACK_STATE_KEY.to_string(), fn_state);
+
+    call_stack.len()
+}
+
 fn push_to_call_stack(state: &mut HashMap<String, StateValue>, call_info: &CallInfo) {
     let fn_state = get_core_sub_state_for_command(state, FUNCTION_STATE_KEY.to_string());
     let call_stack = get_list(CALL_STACK_STATE_KEY.to_string(), fn_state);
